@@ -9,6 +9,7 @@ ASSUME = [
     "one TaskMaster is reused for many traces; every trace ends with a fence, StopTask of every task and an empty fork table",
     "StartTask is never called for a task that is already executing (the task store stops it first); tasks consist of from()|log() chains",
     "concurrent histories depend on the Go scheduler: an observed loss/duplicate is real, absence is a pass (one-sided)",
+    "histories that can take the process down (a backed-up task stopped while others receive) run in child processes; the race is aimed with short sleeps, a dead child is a verdict, a surviving one is a pass (one-sided)",
     "a task that dies at run time is out of the verdict itself; which later points meet its aborted edge first depends on Go map order (one-sided, repeated)",
     "TLC fingerprint collisions are negligible; the libflux link stub is never executed",
 ]
@@ -93,9 +94,10 @@ def run(sc, tier, seed):
         R.add_model(V.model_check(sc, "Routing", "RoutingMC.tla", cfg, workers=8, timeout=2400))
     # negative controls: the code-shaped model WITHOUT the two repairs must show the defects
     # (forkPoint without per-point de-duplication; StartTask that fails without removing its fork)
-    # (and forkPoint that stops at the first failing Collect next to a task that died at run time)
+    # (and forkPoint that stops at the first failing Collect next to a task that died at run time;
+    #  forkPoint that remembers the fork-table lookup of the previous point)
     for cfg, inv in (("Routing_nodedup.cfg", "ExactlyOnce"), ("Routing_nocleanup.cfg", "TableConsistent"),
-                     ("Routing_stopfirst.cfg", "ExactlyOnce")):
+                     ("Routing_stopfirst.cfg", "ExactlyOnce"), ("Routing_cachedlookup.cfg", "ExactlyOnce")):
         obs = V.model_check(sc, "Routing", "RoutingMC.tla", cfg, workers=2, timeout=900, expect_violation={inv})
         if obs["violated"] != inv:
             raise V.Broken("%s no longer yields the %s counterexample: the invariant has become vacuous" % (cfg, inv))
@@ -124,7 +126,7 @@ def run(sc, tier, seed):
     drift, corrupted = [], []
     if val["accepted"]:
         corrupted = selftest(sc, seq[0], tier)
-        val2 = V.validate_traces(sc, "Routing", "RoutingTraceMC.tla", "RoutingImplTrace.cfg", impl_files, timeout=2400, parallel=8)
+        val2 = V.validate_traces(sc, "Routing", "RoutingTraceMC.tla", "RoutingImplTrace.cfg", impl_files, timeout=2400)
         R.states += val2["states"]
         for fp, line_no, res in val2["rejections"]:
             seg, _ = V.segment_of(fp, line_no)
@@ -135,7 +137,7 @@ def run(sc, tier, seed):
         raise V.Broken("lifecycle calls did not return (TaskMaster stuck): " + "; ".join(stuck))
     return R.finish("model_checking", ASSUME, {
         "impl_drift": drift, "impl_level_validated": bool(val["accepted"]),
-        "selftest_corruptions_rejected": corrupted, "model_configs": MODELS[tier] + ["Routing_nodedup.cfg, Routing_nocleanup.cfg, Routing_stopfirst.cfg (expected counterexamples)"]})
+        "selftest_corruptions_rejected": corrupted, "model_configs": MODELS[tier] + ["Routing_nodedup.cfg, Routing_nocleanup.cfg, Routing_stopfirst.cfg, Routing_cachedlookup.cfg (expected counterexamples)"]})
 
 
 def replay(sc, path):
